@@ -30,7 +30,7 @@ def signature(mm):
     return 'C15:' + mm.name + ':' + mm.model.split(' ')[0] + '/' + ' '.join(mm.impl.split(' ')[:2])
 
 
-def build(ty1, ty2, rows, nother, order, by):
+def build(ty1, ty2, rows, nother, order, by, order_by=None):
     """SELECT with targets arranged by `order` (a permutation placing k1, k2 and the aggregates)."""
     table = impl.HTable('t', [('p', gen_sql.PYTYPES[ty1]), ('q', gen_sql.PYTYPES[ty2]), ('v', int), ('w', Decimal)], rows)
     aggs = [ast.Target(ast.Function('sum', [ast.Column('v')]), 's'),
@@ -46,7 +46,7 @@ def build(ty1, ty2, rows, nother, order, by):
     else:
         pv = ast.PivotBy([pos1, pos2])
     group = ast.GroupBy([ast.Column('p'), ast.Column('q')], None)
-    sel = ast.Select(targets, ast.Table('t'), None, group, None, pv, None, None)
+    sel = ast.Select(targets, ast.Table('t'), None, group, order_by, pv, None, None)
     plain = ast.Select(targets, ast.Table('t'), None, group, None, None, None, None)
     return table, sel, plain, pos1 - 1, pos2 - 1
 
@@ -142,7 +142,13 @@ def random_layer(ctx, ncases):
             rows.append((None, rng.choice(d2), 1, Decimal(1)))
         nother = rng.range(1, 3)
         order = rng.shuffle(list(range(2 + nother)))
-        table, sel, plain, c1, c2 = build(ty1, ty2, rows, nother, order, rng.choice(['name', 'pos']))
+        order_by = None
+        if rng.chance(1, 3):
+            # an ORDER BY that does not keep equal first-key values together: the pivot must still give one row per value
+            keycols = rng.shuffle([ast.Column('q'), ast.Column('p'), 1 + rng.below(2 + nother)])[:rng.range(1, 2)]
+            order_by = [ast.OrderBy(k, ast.Ordering(rng.below(2))) for k in keycols]
+            ctx.count('with-order-by')
+        table, sel, plain, c1, c2 = build(ty1, ty2, rows, nother, order, rng.choice(['name', 'pos']), order_by)
         SqlCase([table], sel, name='random').check(ctx, nontrivial=len(rows) >= 2)
         unpivot_oracle(ctx, table, sel, plain, c1, c2)
         if ctx.stop():
@@ -193,7 +199,7 @@ def run(ctx):
     invalid_layer(ctx)
     null_key_probe(ctx)
     grid_layer(ctx)
-    random_layer(ctx, 1500 if ctx.thorough() else 300)
+    random_layer(ctx, 30000 if ctx.thorough() else 300)
 
 
 def replay(ctx, body):
